@@ -154,26 +154,38 @@ def strict_unknown_is_fatal(c):
     return z3.BoolVal(True)
 
 
+def rolled_async(c):
+    """sequence rollover before keys, detected while running as a task done-callback"""
+    return z3.And(c.old('_recv_seq') == 0xffffffff, z3.Not(opt_set(c, '_recv_encryption')),
+                  opt_set(c, '_transport'), c.arg('is_async'))
+
+
 finish_recv_packet = Spec(
     'C06', 'connection', 'SSHConnection._finish_recv_packet', self_class='SSHConnection',
     params=dict(pkttype='int', seq='int', _task='none', is_async='bool'),
-    classes=CONN_CLASSES, stubs={'self._recv_data': noop('recv_data')},
+    classes=CONN_CLASSES, stubs={'self._recv_data': noop('recv_data'), 'self._send_disconnect': noop('disconnect'),
+                                 'self._force_close': noop('force_close')},
     requires=lambda c: z3.And(c.arg('seq') >= 0, c.arg('seq') < 2 ** 32, c.arg('pkttype') >= 0,
                               c.arg('pkttype') <= 255, c.old('_recv_seq') == c.arg('seq')),
     modifies=['_auth_final', '_recv_seq', '_recv_handler'],
     ensures=[
         ('seq-advance-or-strict-reset', lambda c: z3.Implies(
-            opt_set(c, '_transport'),
+            z3.And(opt_set(c, '_transport'), z3.Not(rolled_async(c))),
             c.new('_recv_seq') == z3.If(z3.And(c.arg('pkttype') == 21, c.old('_strict_kex')), 0,
                                         (c.arg('seq') + 1) % 2 ** 32))),
         ('seq-kept-when-closed', lambda c: z3.Implies(z3.Not(opt_set(c, '_transport')),
                                                       c.new('_recv_seq') == c.old('_recv_seq'))),
-        ('handler-rearmed', lambda c: c.eq(c.newv('_recv_handler'), VTag('method:SSHConnection._recv_pkthdr'))),
+        ('handler-rearmed', lambda c: z3.Implies(z3.Not(rolled_async(c)), c.eq(
+            c.newv('_recv_handler'), VTag('method:SSHConnection._recv_pkthdr')))),
         ('auth-final', lambda c: c.new('_auth_final') == z3.Or(c.old('_auth_final'), c.arg('pkttype') > 79)),
+        ('async-rollover-closes-the-connection', lambda c: z3.Implies(
+            rolled_async(c), z3.BoolVal(len(c.events('force_close')) == 1 and len(c.events('disconnect')) == 1))),
     ],
+    # the rollover error is raised to the caller only on the synchronous path; as a task callback the function
+    # disconnects and closes itself (nothing would catch the exception there)
     raises={'ProtocolError': lambda c: z3.And(c.old('_recv_seq') == 0xffffffff,
                                               z3.Not(opt_set(c, '_recv_encryption')),
-                                              opt_set(c, '_transport'))},
+                                              opt_set(c, '_transport'), z3.Not(c.arg('is_async')))},
     always=[('seq-range', lambda c: z3.And(c.new('_recv_seq') >= 0, c.new('_recv_seq') < 2 ** 32))])
 
 recv_packet = Spec(
